@@ -511,8 +511,8 @@ theorem parseEntry_top_single {fs : List Field} {n : Str} {ty : Ty} {d : Option 
     parseEntry (plainTop fs) (.dict kvs) (n, Sum.inl text) = .ok (.dict (kvs ++ [(n, tr)])) := by
   unfold parseEntry
   simp only [getFieldName_key n (simpleName_keyChar hn), splitDot_simple n (simpleName_no_dot hn)]
-  simp only [findSet, isListTy, Bool.false_eq_true, if_false, remap_nil, hf, hk, hl, ha, ensureKey,
-    leafDict]
+  simp only [findSet, isListTy, Bool.false_eq_true, if_false, remap_nil, hf, hk, leafFn, hl, ha,
+    ensureKey, leafDict]
   rw [aset_of_absent n Tree.none kvs hk, aset_last n Tree.none tr kvs hk]
 
 theorem fieldRT_single {lay : Layout} {fs : List Field} {n : Str} {ty : Ty} {d : Option Val}
